@@ -394,7 +394,11 @@ func intrinsicTable0() map[string]func(ex *Exec, f *Frame, call *ssa.Call, args 
 			// assert-then-assume also for the path condition when the assertion is a small
 			// fact such as err == nil (keeps later terms simple); large assertions stay
 			// hypotheses only
-			if termSizeAtMost(c, 12) {
+			// The path condition is strengthened only with atomic facts of the form
+			// `err == nil` (they prune the error paths of everything that follows).  It is
+			// deliberately NOT strengthened with larger assertions: a failing one would then
+			// hide every later failure of the lemma, which the independence re-check cannot undo.
+			if termSizeAtMost(c, 3) {
 				return nil, And(reach, c)
 			}
 			return nil, reach
